@@ -276,8 +276,15 @@ def model_check(insts: list[dict], cfg: str = "DistExec.cfg", timeout: float = 1
             "wall": time.time() - t0, "runs": len(files)}
 
 
-def counterexample(inst: dict, timeout: float = 300) -> str:
-    """TLC's error trace for one bad instance (for the replay file)."""
+_ncex = [0]
+
+
+def counterexample(inst: dict, timeout: float = 300, cap: int = 4) -> str:
+    """TLC's error trace for one bad instance (for the replay file); at most
+    *cap* per process, each costs a JVM start."""
+    _ncex[0] += 1
+    if _ncex[0] > cap:
+        return "(counterexample not generated: cap reached; replay the file to get it)"
     p = os.path.join(scratch(), f"dx1_{os.getpid()}_{time.time_ns()}.json")
     one = dict(inst)
     one.pop("dump", None)
@@ -290,7 +297,8 @@ def counterexample(inst: dict, timeout: float = 300) -> str:
     return res.out[i:i + 6000] if i >= 0 else res.out[-3000:]
 
 
-def liveness(insts: list[dict], timeout: float = 1500, shards: int | None = None) -> dict:
+def liveness(insts: list[dict], timeout: float = 1500, shards: int | None = None,
+             depth: int = 0) -> dict:
     if not insts:
         return {"ok": True, "nstates": 0, "runs": 0}
     shards = shards or max(1, min(NCPU // 2, (len(insts) + 15) // 16))
@@ -308,15 +316,28 @@ def liveness(insts: list[dict], timeout: float = 1500, shards: int | None = None
     with ThreadPoolExecutor(max_workers=len(files)) as ex:
         results = list(ex.map(one, files))
     bad, nst = [], 0
+    unchecked: list[dict] = []
     for p, c, res in zip(files, chunks, results):
-        if res.error:
+        temporal = "Temporal properties were violated" in res.out
+        if res.error and not temporal:
             raise MachineryError(f"DistExec liveness run failed: {res.error}")
         nst += res.distinct
-        if res.violated:
+        if temporal:
             m = re.search(r"inst = (\d+)", res.out)
-            bad.append({"inst": c[int(m.group(1)) - 1]["id"] if m else "?",
+            if not m:
+                raise MachineryError("cannot find the instance in TLC's liveness counterexample")
+            k = int(m.group(1)) - 1
+            bad.append({"inst": c[k]["id"],
                         "trace": res.out[res.out.find("Error:"):][:4000]})
+            # TLC stops at the first counterexample: the rest of the shard is unchecked
+            unchecked += [x for i, x in enumerate(c) if i != k]
         os.unlink(p)
+    if unchecked and depth < 6:
+        more = liveness(unchecked, timeout=timeout, depth=depth + 1)
+        bad += more["bad"]
+        nst += more["nstates"]
+    elif unchecked:
+        raise MachineryError("too many liveness counterexamples to isolate")
     return {"ok": not bad, "bad": bad, "nstates": nst, "runs": len(files)}
 
 
@@ -336,8 +357,6 @@ def trace_records(results: list[dict]) -> list[dict]:
         if "inst" not in r:
             continue
         for t in r.get("traces", []):
-            if t["grain"] != "model":
-                continue        # fine-grained runs are checked on their outputs only
             rec = {k: v for k, v in r["inst"].items() if k != "dump"}
             rec.update(id=t["id"], events=t["events"], final=t["final"])
             recs.append(rec)
